@@ -9,7 +9,7 @@ VERIF = os.path.dirname(os.path.dirname(os.path.abspath(__file__)))
 TRUST = "rustc nightly's HIR/typeck/MIR construction and constant evaluation (the extractor only serialises them); the Python rule engine; the hand-reviewed oracle tables under /verif/tables; "
 
 P = {
- "C01": dict(level="other", design="DESIGN.md 4 C01", technique="static analysis: encoder/decoder table agreement over resolved HIR (R-TAGMAP, R-LAYOUT, R-LENPREFIX, R-TAGBODY, R-BRACKET, R-CAST, R-FRAME) + drop-flag path analysis on elaborated MIR (R-LINEAR); parser-side reject census (R-REJECT), 256-value dispatch partition (R-DISPATCH) and emission order (R-ORDERLIST / R-GROUPS) as sibling clauses; nesting-limit placement (R-DEPTH); token framing of the front ends (R-TOKEN); no panic in the parser's trace formatting; R-BE, R-LOSSY, R-READEXACT, R-PROPAGATE, container clauses of C19, parser never calls add()",
+ "C01": dict(level="other", design="DESIGN.md 4 C01", technique="static analysis: encoder/decoder table agreement over resolved HIR (R-TAGMAP, R-LAYOUT, R-LENPREFIX, R-TAGBODY, R-BRACKET, R-CAST, R-FRAME) + drop-flag path analysis on elaborated MIR (R-LINEAR); parser-side reject census (R-REJECT), 256-value dispatch partition (R-DISPATCH) and emission order (R-ORDERLIST / R-GROUPS) as sibling clauses; nesting-limit placement (R-DEPTH); token framing of the front ends (R-TOKEN); no panic in the parser's trace formatting; R-BE, R-LOSSY, R-READEXACT, R-PROPAGATE, container clauses of C19, parser never calls add(); parser state-order rules (R-ORDERED), parse_delimiter returns the decoded delimiter, member rejection only with an item in hand",
              text="Structural necessary conditions of round-trip equality, decided on every run from the type-checked program: kind->tag->kind identity, per-kind field order/width/length-prefix symmetry between IppValue::to_bytes and IppValue::parse, tag/body pairing in sets and collections, injective casts, header/attribute framing symmetry, and no silently dropped value in the parser state machine. Not a proof of round-trip equality over the unbounded recursive value type (that needs execution). Also: every rejection in the decoder is one of the reviewed ones, every group is emitted, the header constructor stores its arguments.",
              note=TRUST + "bytes::Buf/BufMut contracts. Not decided: full round-trip equality for all messages."),
  "C02": dict(level="other", design="DESIGN.md 4 C02", technique="static analysis: buffer lower-bound dataflow over MIR against a panic-precondition table (R-GUARD), loop progress classification (R-LOOP), call-graph acyclicity (R-NOREC), constant nesting bound (R-DEPTH), 256-value dispatch partition (R-DISPATCH); staleness-tracked length observations, text-slice character boundaries, constant pre-allocation budget per token; narrow-addition overflow; exact length guards; no user Drop impl on returned types; range bounds of drain/split_at",
@@ -21,10 +21,10 @@ P = {
  "C04": dict(level="other", design="DESIGN.md 4 C04", technique="static analysis: 256-value tag partition by constant propagation over MIR (R-DISPATCH), decoder table vs RFC layout (R-LAYOUT), lossy-text census (R-LOSSY), order-preserving container operations (R-ORDERED), drop-flag path analysis (R-LINEAR); reject census: every Err-returning condition in the reader/parser/decoder cone is a reviewed one (R-REJECT); R-GUARD text-slice clause over the parse cone (Display in trace!); nesting-limit placement (R-DEPTH); exact length guards; decoded text stored unaltered; decoder arms selected by tag and exact length only; R-TOKEN; R-PROPAGATE; R-LINEAR over every function of the parser module with ownership-closed markers; R-READEXACT, R-STOP/R-ONLYEXIT, R-ERRWRAP, container clauses of C19, parser never calls add()",
              text="Tag-byte partition of the dispatch over all 256 bytes, decode table per tag vs RFC layout, lossy text conversion only, order-preserving containers, and no silent drop of a received value on a success path. No rejection beyond the reviewed wire-format ones (a cap or filter added to the reader is reported).",
              note=TRUST + "Not decided: that the pairing algorithm yields exactly the RFC reading for every tree."),
- "C05": dict(level="translation_validation", design="DESIGN.md 4 C05", technique="static analysis: sibling equality modulo await - normalised resolved-HIR tree comparison of the 18 sync/async twin pairs (R-TWIN); payload adaptor arms (R-FORWARD) as sibling clause; second judgement on path summaries when the trees differ",
+ "C05": dict(level="translation_validation", design="DESIGN.md 4 C05", technique="static analysis: sibling equality modulo await - normalised resolved-HIR tree comparison of the 18 sync/async twin pairs (R-TWIN); payload adaptor arms (R-FORWARD) as sibling clause; second judgement on canonical path summaries when the trees differ (all front-end functions inlined, tag tests as byte sets over the 256 values)",
              text="The 18 blocking/async sibling pairs are compared as resolved HIR trees after erasing the async lowering, `.await`, log statements and the sibling name map; both front ends must call the same state-machine DefIds and no hand-written poll exists. Any one-sided edit is reported with the path to the first difference.",
              note=TRUST + "futures_util::io::ReadExact / std read_exact schedule independence (trusted)."),
- "C06": dict(level="other", design="DESIGN.md 4 C06", technique="static analysis: who-may-call on the reader's source field (R-READEXACT), exact-size buffer flow, no reader call after the end-of-attributes edge in MIR (R-STOP); only pass-through adaptors between the HTTP response body and the parser in both clients (R-HTTPSHAPE parse-source clause); payload adaptor pass-through (R-FORWARD); R-TOKEN; R-DISPATCH; no panic in the parser's trace formatting; R-PROPAGATE, R-REJECT",
+ "C06": dict(level="other", design="DESIGN.md 4 C06", technique="static analysis: who-may-call on the reader's source field (R-READEXACT), exact-size buffer flow, no reader call after the end-of-attributes edge in MIR (R-STOP); only pass-through adaptors between the HTTP response body and the parser in both clients (R-HTTPSHAPE parse-source clause); payload adaptor pass-through (R-FORWARD); R-TOKEN; R-DISPATCH (incl. parse_delimiter returns the delimiter it decoded); no panic in the parser's trace formatting; R-PROPAGATE, R-REJECT",
              text="Only read_exact on exactly-sized buffers touches the source; reader structs own nothing but the source; no reader call is reachable between the end-of-attributes edge and return; the source is moved out unchanged. The clients hand the whole response stream to the parser.",
              note=TRUST + "read_exact's fragmentation/Interrupted handling (std / futures-util, trusted)."),
  "C07": dict(level="other", design="DESIGN.md 4 C07", technique="static analysis: error-discipline census over resolved HIR (R-PROPAGATE), single Ok exit dominated by the end-of-attributes edge (R-ONLYEXIT), identity error wrappers (R-ERRWRAP); R-TOKEN; payload bridge forwarding (R-FORWARD)",
@@ -33,7 +33,7 @@ P = {
  "C08": dict(level="other", design="DESIGN.md 4 C08", technique="static analysis: structural match of into_read/into_async_read and the payload Read/AsyncRead arms over resolved HIR (R-CHAIN, R-FORWARD); impl-items census of the payload's Read/AsyncRead impls; operations attach the payload unchanged (C10's clause)",
              text="into_read/into_async_read = Cursor(to_bytes()).chain(payload) in that order; each payload arm forwards the caller's buffer unsliced to exactly one inner read and returns its result unchanged.",
              note=TRUST + "Chain, Cursor, AllowStdIo, block_on semantics (trusted)."),
- "C09": dict(level="other", design="DESIGN.md 4 C09", technique="static analysis: compiler-evaluated ordered-first constant vs RFC 8011 4.1.4-4.1.5 and emission-schedule shape of IppAttributes::to_bytes over resolved HIR (R-ORDERLIST, R-ENDTAG); base attributes of request and response constructors (C10's clauses)",
+ "C09": dict(level="other", design="DESIGN.md 4 C09", technique="static analysis: compiler-evaluated ordered-first constant vs RFC 8011 4.1.4-4.1.5 and emission-schedule shape of IppAttributes::to_bytes over resolved HIR (R-ORDERLIST, R-ENDTAG); base attributes of request and response constructors (C10's clauses); requests are serialised through IppAttributes::to_bytes itself (C08's clause); length-prefix / layout / frame / byte-order clauses of C03 (an attribute occupies exactly the octets its length fields announce)",
              text="The ordered-first name list that drives emission, as evaluated by the compiler, has charset, natural-language, then target uri(s), then job-id; the unordered (hash-map) part is filtered by exactly that list; the operation delimiter is the first byte after the header. Independent of insertion and hash order by construction.",
              note=TRUST + "HashMap::get returns the entry (trusted)."),
  "C10": dict(level="other", design="DESIGN.md 4 C10", technique="static analysis: per-operation wiring extraction from resolved HIR compared with an RFC 8011 operation table (R-OPWIRE), builder field->parameter flow and field liveness (R-BUILDERS); no in-place mutation of a wired value between setter and attribute; field types of operation structs/builders keep order and multiplicity; no reordering of the caller's lists; attribute constructor stores its arguments; emission clauses of C09",
